@@ -291,8 +291,22 @@ fn lex_and_parse_number<N: FromLexicalWithOptions, const FORMAT: u128>(
         input: LexInput,
         options: &'static N::Options,
     ) -> lexical::Result<(N, usize)> {
+        // A digit separator right after the decimal point (`1._5`) is not part of the number (see
+        // the workaround below), and lexical's arbitrary-precision path trips a debug assertion on
+        // it (`1._0000000000000000001`), so do not show it to lexical in the first place.
+        let bytes = input.as_bytes();
+        let digits_end = bytes
+            .iter()
+            .position(|byte| !(byte.is_ascii_digit() || *byte == b'_'))
+            .unwrap_or(bytes.len());
+        let limit = if bytes[digits_end..].starts_with(b"._") {
+            digits_end + 1
+        } else {
+            bytes.len()
+        };
+
         let result @ (_, len) =
-            lexical::parse_partial_with_options::<N, _, FORMAT>(input, options)?;
+            lexical::parse_partial_with_options::<N, _, FORMAT>(input.slice(..limit), options)?;
 
         // There appears to be a bug in lexical where in `0b.`, `0b` is parsed as the integer `0`
         // even though `.` is not consumed.  This check is a workaround for that.
